@@ -414,6 +414,11 @@ func convertArg(val Value, typ reflect.Type) (reflect.Value, bool) {
 			return c, true
 		}
 	}
+	// A string or boolean also fits a type defined over string or bool
+	// (type Colour string), and the other way round.
+	if (r.Kind() == reflect.String || r.Kind() == reflect.Bool) && r.Kind() == typ.Kind() {
+		return r.Convert(typ), true
+	}
 	return r, false
 }
 
